@@ -15,7 +15,7 @@ MANIFEST = dict(
         "under ASan/UBSan, plus an independent in-harness property oracle."),
   note=TRUST + "memory safety of the real object code is runtime evidence (ASan/UBSan over the generated histories), the theorem is about the model; "
        "wrapper matrices: Kernel/Regularized/Modified/Precomputed/Block2x2/Difference/PartlyPrecomputed are modelled and proved for all flip histories over an arbitrary kernel function; "
-       "tied on integer points with the linear kernel; GaussianKernelMatrix and ExampleModifiedKernelMatrix are not modelled; matrix() is only exercised before the first flip.",
+       "tied on integer points with the linear kernel; GaussianKernelMatrix is covered by a toleranced in-harness oracle only (not modelled), ExampleModifiedKernelMatrix is not covered; matrix() is only exercised before the first flip.",
   technique="Lean 4 invariant proof by induction over operation histories + differential correspondence with the C++ (ASan/UBSan)",
   design="§6 C09")
 
@@ -95,6 +95,9 @@ def gen_wrapper_case(r, maxlen):
     labels = [r.below(3) for _ in range(n)]
     diag = [r.below(5) for _ in range(n)]
     ops = ["wdata %d %d %d %s" % (n, d, bs, " ".join(map(str, xs + labels + diag)))]
+    if r.chance(1, 10):
+        fl = " ".join(f"{r.below(n)} {r.below(n)}" for _ in range(r.below(4)))
+        return ops + [f"wgauss {r.range(1, 8)} {r.range(0, 4)} {fl}".strip()]
     ty = r.choice(["kernel", "reg", "mod", "pre", "pre", "block", "diff", "partly"])
     size = n
     if ty == "mod":
@@ -200,7 +203,7 @@ def run(ctx):
     wcases = [c for c in corpus if c[0].startswith("w")]
     wcases += [gen_wrapper_case(r, 25 if ctx.quick else 80) for _ in range(nw)]
     for c in wcases:
-        ctx.hist("wrapper_types", c[1].split()[1])
+        ctx.hist("wrapper_types", c[1].split()[1] if c[1].startswith("wmk") else c[1].split()[0])
         for o in c: ctx.hist("op_mix", o.split()[0])
     ctx.cov["evaluations"] += len(wcases)
     ctx.cov["distinct_nontrivial"] += len({"\n".join(c) for c in wcases if any(o.startswith("wflip") for o in c)})
